@@ -141,6 +141,7 @@ def finish(prop, pc, tier, seed, results, kani_res, wall, update_baseline=False)
 
     os.makedirs(os.path.join(OUT, "replays"), exist_ok=True)
     vio_lines = []
+    downgraded = []
     replay_mod = None
     for o in violations:
         rec = {"property": prop, "obligations": [{"id": o["id"], "clause": o["clause"], "backend": o["backend"],
@@ -165,6 +166,12 @@ def finish(prop, pc, tier, seed, results, kani_res, wall, update_baseline=False)
                 if ok is False:
                     rec["failing_inputs"].append({"probe": pr, "observed": obs})
                     found = True
+        if not found and o.get("fn") and any(re.search(r"(?<![\w.])%s(?![\w.])" % re.escape(o["fn"]), dgr) for dgr in degraded):
+            # the proof of this very function lost a hint (its body was restructured) and no concrete failing input exists:
+            # the failed proof is inconclusive, not a violation
+            undecided.append("obligation %s failed, but proof hints of %s could not be placed on the restructured body and no failing input was found: undecided" % (o["id"], o["fn"]))
+            downgraded.append(o["id"])
+            continue
         h = hashlib.sha256((o["id"] + json.dumps(rec["obligations"])).encode()).hexdigest()[:8]
         rp = os.path.join(OUT, "replays", "%s-%s-%s.json" % (prop, re.sub(r"[^\w.]+", "_", o["id"]), h))
         json.dump(rec, open(rp, "w"), indent=1)
@@ -206,12 +213,13 @@ def finish(prop, pc, tier, seed, results, kani_res, wall, update_baseline=False)
             "undecided": undecided,
             "proof_hints_not_placed": degraded,
             "known_finding_witnesses": witness_checks,
-            "failed_obligations": [o["id"] for o in violations],
+            "failed_obligations": [o["id"] for o in violations if o["id"] not in downgraded],
+            "inconclusive_obligations": downgraded,
             "all_obligation_ids": sorted(obligations.keys()),
         },
         "assumptions": pc.get("assumptions", []) + ["machine arithmetic is NOT idealised: Verus overflow obligations / CBMC bit-precise"],
         "wall_s": round(wall, 2),
-        "violations": len(violations),
+        "violations": len([o for o in violations if o["id"] not in downgraded]),
     }
     os.makedirs(os.path.join(OUT, "evidence"), exist_ok=True)
     json.dump(ev, open(os.path.join(OUT, "evidence", prop + ".json"), "w"), indent=1)
@@ -225,7 +233,8 @@ def finish(prop, pc, tier, seed, results, kani_res, wall, update_baseline=False)
     for dgr in degraded:
         print("NOTE: proof hint not placed, " + dgr)
     print("%s: %d obligations, %d discharged, %d known findings, %d violations, %d undecided notes, %.1fs" % (
-        prop, n_obl, discharged, ev["coverage"]["known_findings"], len(violations), len(undecided), wall))
+        prop, n_obl, discharged, ev["coverage"]["known_findings"], len(violations) - len(downgraded), len(undecided), wall))
+    violations = [o for o in violations if o["id"] not in downgraded]
     if violations:
         return 1
     if undecided:
